@@ -147,7 +147,28 @@ func ruleBlockClip(c *Ctx) {
 		h := fi.lin(q.High)
 		k := fi.lin(stripConv(e.MatchLen))
 		goal := h.add(k).sub(fi.lenOf(q.X))
-		extra := append(fi.loopLemmas(), fi.byteCompareFacts()...)
+		// fast path: per-path entailment with the equalities kept by the extension loops
+		if sl := c.scanOf(e); sl != nil {
+			lem := fi.extLemmas()
+			cases := fi.expandCases(h.add(k), sl.L, e.Block)
+			all := len(cases) > 0 && len(cases) <= 64
+			for _, cs := range cases {
+				if !all {
+					break
+				}
+				ex := append(fi.validFacts(lem, e.Block, cs.Preds), cs.Eqs...)
+				if !fi.proveFlat(cs.L.sub(fi.lenOf(q.X)), cs.Conds, ex) {
+					all = false
+				}
+			}
+			if all {
+				c.ok(e.Key, e.Pos, "H + MatchLen = %s ≤ len(p) = %s on each of the %d paths to the emission", h.add(k), fi.lenOf(q.X), len(cases))
+				continue
+			}
+		}
+		// slow path: phi case split with coinduction; no loop lemmas (they are only valid on
+		// paths through their loop and are applied per path above)
+		var extra []Fact
 		if fi.proveAt(goal, e.Block, extra) {
 			c.ok(e.Key, e.Pos, "H + MatchLen = %s ≤ len(p) = %s", h.add(k), fi.lenOf(q.X))
 		} else {
